@@ -21,3 +21,5 @@ pub mod sync;
 pub mod tls;
 pub mod tripwire;
 pub mod updates;
+#[cfg(feature = "verif-hooks")]
+pub mod verif;
